@@ -40,12 +40,14 @@ Example usage:
 package overlay // import "perkeep.org/pkg/blobserver/overlay"
 
 import (
+	"bytes"
 	"context"
 	"errors"
 	"fmt"
 	"io"
 	"log"
 	"os"
+	"sync"
 	"time"
 
 	"go4.org/jsonconfig"
@@ -74,6 +76,11 @@ type overlayStorage struct {
 
 	// read-write storage for changes
 	upper blobserver.Storage
+
+	// mu serializes ReceiveBlob and RemoveBlobs: each of them changes
+	// both the upper layer and the deleted index, and the two steps of
+	// one must not interleave with the two steps of the other.
+	mu sync.Mutex
 }
 
 func newFromConfig(ld blobserver.Loader, conf jsonconfig.Obj) (blobserver.Storage, error) {
@@ -120,8 +127,19 @@ func (sto *overlayStorage) Close() error {
 
 // ReceiveBlob stores received blobs on the upper layer.
 func (sto *overlayStorage) ReceiveBlob(ctx context.Context, br blob.Ref, src io.Reader) (sb blob.SizedRef, err error) {
-	sb, err = sto.upper.ReceiveBlob(ctx, br, src)
-	if err == nil && sto.deleted != nil {
+	if sto.deleted == nil {
+		return sto.upper.ReceiveBlob(ctx, br, src)
+	}
+	// Read the blob before taking the lock, so that a slow
+	// uploader does not hold it.
+	var buf bytes.Buffer
+	if _, err := io.Copy(&buf, src); err != nil {
+		return sb, err
+	}
+	sto.mu.Lock()
+	defer sto.mu.Unlock()
+	sb, err = sto.upper.ReceiveBlob(ctx, br, bytes.NewReader(buf.Bytes()))
+	if err == nil {
 		err = sto.deleted.Delete(br.String())
 	}
 	return sb, err
@@ -133,6 +151,8 @@ func (sto *overlayStorage) RemoveBlobs(ctx context.Context, blobs []blob.Ref) er
 		return blobserver.ErrNotImplemented
 	}
 
+	sto.mu.Lock()
+	defer sto.mu.Unlock()
 	err := sto.upper.RemoveBlobs(ctx, blobs)
 	if err != nil {
 		return err
